@@ -126,7 +126,9 @@ def run(ctx):
         "registry linearizability and atomicity of the NX put (olric/memberlist): modelled by C30/Registry.v, not verified; "
         "the fake registry executes cluster.PutGrainIfAbsent's exists+put fallback as one atomic step, as the builtin engine's NX put does",
         "the harness: fake cluster.Cluster (go/inpkg/actor/zz_verif_C30reg_test.go), controlled scheduler, instrumented grain",
-        "x/sync singleflight (one leader per key, followers share its result): modelled as at most one flight per node",
+        "x/sync singleflight (one leader per key, followers share its result): modelled as at most one flight per node from lookup to the end of every rollback; "
+        "checked on the real code by TestVerifC30Flight (a second same-node caller at every scheduling point of a flight, failures injected)",
+        "records never expire: Registry.r_persist / C30_registry_claim_persists; checked on the real cluster code (no expiry option on grain writes; a claim still blocks after the clock advanced)",
     ]
     ctx.assumptions += [
         "one grain identity; nodes never crash (relocation is C32/C33); activation barrier disabled; grain kind registered on every node",
